@@ -4,9 +4,10 @@
    Mirrors
      runtime/thread.go    closeStack (push/pop/truncate), cleanupCloseStack (LIFO calls of __close with
                           the current error, a handler's error replaces it, the loop goes on down to h),
-                          CallContext (h := size at entry; cleanup to h with f's error; on a Go panic —
-                          context termination or threadClose — the stack is truncated to h WITHOUT calling
-                          the handlers), Thread.end (cleanup to 0 with the thread's error), Thread.Close
+                          CallContext (h := size at entry; cleanup to h with f's error; on a
+                          ContextTerminationError panic the stack is truncated to h WITHOUT calling the
+                          handlers — not reachable here, no quotas —; any other panic, threadClose in
+                          particular, leaves the pending entries on the stack and re-panics [repaired]), Thread.end (cleanup to 0 with the thread's error), Thread.Close
                           (threadClose exception sent to the suspended thread).
                           Thread.end as of /repo 8db1ed8: on a ContextTerminationError (quota kill) the
                           pending handlers are discarded (truncate(0)); every other path (return, error,
@@ -155,7 +156,7 @@ Fixpoint exec (fuel : nat) (whole rest : code) (base : nat) (s : vst) {struct fu
           | VError x =>
             let '(ev2, stk, e) := cleanup (stack s1) h (Some x) in
             vprepend (ev ++ ev2 ++ [EvPcall e]) (exec f whole k base (set_stack s1 stk))
-          | VClosed => Done (ev, VClosed, set_stack s1 (truncate (stack s1) h))
+          | VClosed => Done (ev, VClosed, s1)     (* not a ContextTerminationError: entries stay, Thread.end runs them *)
           | VPanic => Done (ev, VPanic, s1)
           end)
       | ICoro c j =>
